@@ -11,6 +11,8 @@ use vstd::prelude::*;
 use vstd::std_specs::iter::IteratorSpec;
 use std::collections::{BTreeMap, HashSet};
 extern crate naga;
+extern crate case;
+use case::CaseExt;
 extern crate proc_macro2;
 extern crate syn;
 extern crate wgpu_types;
